@@ -1,7 +1,7 @@
 """C06 - a ResendRequest is answered completely, in order and without side effects.
 
 Theorems (Props/C06.v) are about coq/theories/Fix/Resend.v, a message-level model of
-AsyncFIXConnection._process_resend (as repaired by fixes/D12-resend-keeps-journal.patch) with what it calls (Journaler.recover_messages / set_seq_num /
+AsyncFIXConnection._process_resend and its call site in _process_message (repairs D12 and R3c) with what they call (Journaler.recover_messages / set_seq_num /
 persist_msg, send_msg, the codec's sequence-number selection).  This harness ties the model to the
 code: a real AsyncFIXDummyServer over a real SQLite Journaler (no sockets: fake writer, dummy
 reader) sends a journal of messages, optionally answers earlier ResendRequests and
@@ -530,17 +530,16 @@ def check_property(case, obs):
 # ---- known-finding class predicates: decidable from the request, the filter and the pre-state journal
 
 def classify(case, obs):
-    """Names of the known-finding classes whose predicate accepts this case, most specific first."""
+    """Names of the known-finding classes whose predicate accepts this case (Coq: in_class k_* in ResendL.v)."""
     pre = obs["pre"]
     b, e = req_int(case["begin"]), req_int(case["end"])
     nout = pre["nout"]
     out = []
-    if b is not None:
-        b = max(b, 1)             # the number the handler uses
-    if b is None or e is None or not (b <= INT64_MAX) or not (-2 ** 63 <= e <= INT64_MAX):
-        return ["C06-request-unparsable"]
-    if b > nout:
-        return ["C06-begin-beyond"]
+    if b is None or e is None:
+        return []                 # unreadable: nothing is sent, everything restored - the right outcome
+    b = max(b, 1)                 # the number the handler uses
+    if e > INT64_MAX and b < nout:
+        out.append("C06-end-beyond-64-bits")
     hi = INT64_MAX if e == 0 else e
     declined = set(obs["declined"])
     keys = {r[0] for r in pre["rows"]}
@@ -555,12 +554,8 @@ def classify(case, obs):
 
 
 def in_theorem_domain(case, obs):
-    """Hypotheses of C06_reply_chain_partial: the complement of the classes (for the two start states)."""
-    pre = obs["pre"]
-    b, e = req_int(case["begin"]), req_int(case["end"])
-    if b is None or e is None:
-        return False
-    return b <= pre["nout"] and -2 ** 63 <= e <= INT64_MAX and not classify(case, obs)
+    """Hypotheses of C06_reply_chain_partial: every request (readable or not) outside the classes."""
+    return not classify(case, obs)
 
 
 # =========================================================================================
@@ -701,7 +696,7 @@ def evaluate(ctx, cases, use_model=True):
             ctx.disagree(case, o, None, "harness-could-not-build-case")
             continue
         b = req_int(case["begin"])
-        nontriv = b is not None and req_int(case["end"]) is not None and b < o["pre"]["nout"]
+        nontriv = b is not None and req_int(case["end"]) is not None and b < o["pre"]["nout"]   # something sent is asked for
         ip = o["projection"]
         ctx.case(canon(case), nontriv,
                  sample={"case": case, "reply": [(w[1], w[0]) for w in o["wire"]], "state_after": o["post"]["state"],
@@ -728,15 +723,17 @@ def evaluate(ctx, cases, use_model=True):
 # the witnesses of the *_refuted theorems of Props/C06.v, in the harness's case syntax
 WITNESSES = {
     "C06_bounded_end_refuted": ({"slots": ["A", "D", "D", "D"], "begin": "2", "end": "2", "state": "ACTIVE"}, "C06-bounded-end"),
-    "C06_begin_beyond_refuted": ({"slots": ["A", "D"], "begin": "5", "end": "0", "state": "ACTIVE"}, "C06-begin-beyond"),
-    "C06_unparsable_refuted": ({"slots": ["A", "D"], "begin": "x", "end": "0", "state": "ACTIVE"}, "C06-request-unparsable"),
+    "C06_end_beyond_64_refuted": ({"slots": ["A", "D"], "begin": "2", "end": "9223372036854775808", "state": "ACTIVE"}, "C06-end-beyond-64-bits"),
     "C06_hole_refuted": ({"slots": ["A", "D", "Dh", "D", "D"], "begin": "2", "end": "0", "state": "ACTIVE"}, "C06-hole-before-replayed"),
     "C06_possdup_tag_refuted": ({"slots": ["A", "Dp"], "begin": "2", "end": "0", "state": "ACTIVE"}, "C06-row-carries-possdup-tags"),
 }
-# positive witnesses: must satisfy the property on the implementation (a second request over a replayed range)
+# positive witnesses: must satisfy the property on the implementation
 POSITIVE = {
     "C06_second_request_ok": {"slots": ["A", "Dl", "Dl"], "begin": "2", "end": "0", "state": "ACTIVE"},
     "C06_begin_nonpositive_example": {"slots": ["A", "D"], "begin": "-3", "end": "0", "state": "ACTIVE"},
+    "C06_unanswerable_requests_ok/beyond": {"slots": ["A", "D"], "begin": "5", "end": "0", "state": "ACTIVE"},
+    "C06_unanswerable_requests_ok/not-a-number": {"slots": ["A", "D"], "begin": "x", "end": "0", "state": "ACTIVE"},
+    "C06_unanswerable_requests_ok/tag-absent": {"slots": ["A", "D"], "begin": None, "end": "0", "state": "ACTIVE"},
 }
 
 
@@ -759,7 +756,10 @@ def confirm_witnesses(ctx):
     for thm, case in POSITIVE.items():
         o = run_case(case)
         bad = check_property(case, o)
-        pos[thm] = {"case": case, "reply": [(w[1], w[0]) for w in o["wire"]], "holds": not bad, "breach": "; ".join(bad)[:300]}
+        pos[thm] = {"case": case, "reply": [(w[1], w[0]) for w in o["wire"]], "holds": not bad, "breach": "; ".join(bad)[:300],
+                    "swallowed": o["swallowed"], "state_changes": o["states"]}
+        if bad:
+            ctx.disagree(case, "; ".join(bad), "property holds (theorem %s)" % thm, "positive-witness:" + thm)
     ctx.extra["positive_witnesses_on_implementation"] = pos
 
 
